@@ -99,8 +99,27 @@ def gen_case(rng, lt):
         # the kernel-density variant over the full chain (bandwidth rule or dimensionless bandwidth factor): smooth in Ddt,
         # so the rescaling statement holds to rounding
         data["binning_method"] = rng.choice(["scott", "silverman", 0.3])
+    p1, p2 = gen_params(rng, model), gen_params(rng, model)
+    if lt in ("DdtHistKDE", "DdtHistKin") and rng.random() < 0.5:
+        # the Ddt posterior as importance-weighted samples from a broad proposal (weights spanning many decades), and a
+        # parameter point whose prediction lies five to six widths out in its tail: the tail of the density is data too
+        try:
+            from harness.props import c03
+            lens0 = lc.make_lens(lt, dict(cfg), data)
+            ddt1 = float(lens0.angular_diameter_distances(make_cosmo(model, p1))[0])
+            pred = ddt1 * c03.lens_lambda(cfg, h) * (1 - c03.lens_kappa(cfg, h))
+            t = rng.uniform(4.8, 6.5)
+            mu = pred / (1 + 0.03 * t)
+            sg = 0.03 * mu
+            r = np.random.RandomState(rng.randrange(2 ** 31))
+            xs = r.uniform(mu - 8 * sg, mu + 8 * sg, 3000)
+            data["ddt_samples"] = xs
+            data["ddt_weights"] = np.exp(-0.5 * ((xs - mu) / sg) ** 2)
+            data["bandwidth"] = 0.3 * sg
+        except Exception:  # noqa
+            pass
     # the rescaling factor: of order one, and a change of units of the distance scale (Mpc <-> Gpc / kpc)
-    return dict(ltype=lt, model=model, cfg=cfg, hyper=h, data=data, p1=gen_params(rng, model), p2=gen_params(rng, model),
+    return dict(ltype=lt, model=model, cfg=cfg, hyper=h, data=data, p1=p1, p2=p2,
                 c=rng.choice([rng.uniform(0.3, 3.0), 2.0, 0.5, 1000.0, 1e-3, 40.0]), normalized=rng.random() < 0.5)
 
 
